@@ -597,10 +597,10 @@ End NonInterference.
 (* ---- two fact sets that show the same facts to every trusted set that excludes [n] ---- *)
 Section Agree.
 Variable orc : oracles.
-Variables (fs fs' : list ofact) (n : N).
+Variables (fs fs' : list ofact) (ok_tr : origin -> Prop).
 
 Definition same_view : Prop :=
-  forall tr tr', oeq tr tr' -> ~ In n tr ->
+  forall tr tr', oeq tr tr' -> ok_tr tr ->
     (forall p', In p' fs' -> osubset (fst p') tr' = true ->
                 exists p, In p fs /\ snd p = snd p' /\ osubset (fst p) tr = true) /\
     (forall p, In p fs -> osubset (fst p) tr = true ->
@@ -618,7 +618,7 @@ Proof.
   exists (p0 :: picks0). split; [intros q [<-|I]; auto|]. cbn [map]. congruence.
 Qed.
 
-Lemma holds_binding_agree tr tr' r s : oeq tr tr' -> ~ In n tr ->
+Lemma holds_binding_agree tr tr' r s : oeq tr tr' -> ok_tr tr ->
   (holds_binding fs' tr' r s <-> holds_binding fs tr r s).
 Proof.
   intros E N. destruct (SV tr tr' E N) as [V1 V2]. split; intros [picks [Hp Hm]].
@@ -638,7 +638,7 @@ Proof.
   - symmetry. apply H1, H3, H2. reflexivity.
 Qed.
 
-Lemma find_match_agree tr tr' r bb bb' : oeq tr tr' -> ~ In n tr ->
+Lemma find_match_agree tr tr' r bb bb' : oeq tr tr' -> ok_tr tr ->
   find_match orc fs tr r = Ok bb -> find_match orc fs' tr' r = Ok bb' -> bb' = bb.
 Proof.
   intros E N H H'. eapply bool_iff_eq; [apply (find_match_spec _ _ _ _ _ H)|apply (find_match_spec _ _ _ _ _ H')|].
@@ -646,7 +646,7 @@ Proof.
     apply (holds_binding_agree tr tr' r s E N); assumption.
 Qed.
 
-Lemma check_match_all_agree tr tr' r bb bb' : oeq tr tr' -> ~ In n tr ->
+Lemma check_match_all_agree tr tr' r bb bb' : oeq tr tr' -> ok_tr tr ->
   check_match_all orc fs tr r = Ok bb -> check_match_all orc fs' tr' r = Ok bb' -> bb' = bb.
 Proof.
   intros E N H H'.
@@ -655,7 +655,7 @@ Proof.
     intros s0 A0; apply B; apply (holds_binding_agree tr tr' r s0 E N); assumption.
 Qed.
 
-Lemma query_holds_agree k tr tr' r bb bb' : oeq tr tr' -> ~ In n tr ->
+Lemma query_holds_agree k tr tr' r bb bb' : oeq tr tr' -> ok_tr tr ->
   query_holds orc k fs tr r = Ok bb -> query_holds orc k fs' tr' r = Ok bb' -> bb' = bb.
 Proof.
   intros E N H H'. destruct k; cbn [query_holds] in *.
@@ -670,7 +670,7 @@ Qed.
 Definition alt_ok (default default' : origin) (cur : N) (km km' : keymap) (qs : list rule) : Prop :=
   forall q, In q qs ->
     oeq (from_scopes (rscopes q) default cur km) (from_scopes (rscopes q) default' cur km') /\
-    ~ In n (from_scopes (rscopes q) default cur km).
+    ok_tr (from_scopes (rscopes q) default cur km).
 
 Lemma any_query_agree k default default' cur km km' qs bb bb' :
   alt_ok default default' cur km km' qs ->
@@ -805,7 +805,7 @@ Let n := N.of_nat (length t).
 Let km := token_keymap t.
 Let km' := token_keymap (t ++ [b]).
 
-Lemma same_view_sat : same_view fs fs' n.
+Lemma same_view_sat : same_view fs fs' (fun tr => ~ In n tr).
 Proof.
   intros tr tr' E N.
   destruct (saturate_exact orc _ _ _ Hs) as [S C].
@@ -834,7 +834,7 @@ Lemma alt_ok_intro default default' cur qs :
   oeq default default' ->
   (cur = auth_id \/ (cur < n)%N) ->
   (forall y, In y default -> y = auth_id \/ (y < n)%N) ->
-  alt_ok n default default' cur km km' qs.
+  alt_ok (fun tr => ~ In n tr) default default' cur km km' qs.
 Proof.
   intros Hq Hd Hc Hb q I. split.
   - apply from_scopes_oeq; [|assumption]. intros k Ik. apply keys_agree'. eapply Hq; eauto.
@@ -882,7 +882,7 @@ Proof.
   destruct (run_block_checks orc true fs km (N.succ i) bs) as [y|] eqn:B; [|discriminate].
   destruct (run_block_checks orc true fs' km' (N.succ i) bs) as [y'|] eqn:B'; [|discriminate].
   assert (x' = x) as ->.
-  { eapply (run_checks_agree orc fs fs' n same_view_sat); [|exact R|exact R'].
+  { eapply (run_checks_agree orc fs fs' _ same_view_sat); [|exact R|exact R'].
     intros c Ic. apply alt_ok_intro.
     - intros q k Iq Ik. apply (block_scopes_in b0); [apply Hin; left; reflexivity|].
       unfold block_all_scopes. apply in_or_app. right. apply in_or_app. right.
@@ -929,7 +929,7 @@ Proof.
   destruct (run_checks orc true fs' _ _ km' _ 0 (bchecks b)) as [lb|] eqn:B5; [|intros _ []].
   intros _ _.
   assert (f1' = f1) as ->.
-  { eapply (run_checks_agree orc fs fs' n same_view_sat); [|exact A1|exact B1].
+  { eapply (run_checks_agree orc fs fs' _ same_view_sat); [|exact A1|exact B1].
     intros c Ic. apply alt_ok_intro.
     - intros q k Iq Ik. apply auth_scopes_in. unfold auth_all_scopes.
       apply in_or_app. right. apply in_or_app. right. apply in_or_app. left.
@@ -941,7 +941,7 @@ Proof.
   assert (f2' = f2) as ->.
   { eapply run_block_checks_agree; [apply firstn_1_in|apply firstn_1_len|exact A2|exact B2]. }
   assert (pol' = pol) as ->.
-  { eapply (run_policies_agree orc fs fs' n same_view_sat); [|exact A3|exact B3].
+  { eapply (run_policies_agree orc fs fs' _ same_view_sat); [|exact A3|exact B3].
     intros p Ip. apply alt_ok_intro.
     - intros q k Iq Ik. apply auth_scopes_in. unfold auth_all_scopes.
       apply in_or_app. right. apply in_or_app. right. apply in_or_app. right.
